@@ -35,6 +35,17 @@ Annotated(files, names) ==
                  <<"fname", names[k]>>, <<"nf", ToString(Len(files[k].header) + 4)>> >>]])
 FinalNR(files) == Before(files, Len(files) + 1)
 
+\* The law itself, for files whose BYTES are spelled in ways the record model above does not describe (a byte-order mark,
+\* CR LF line ends, no newline at the end): whatever a reader makes of such a file read alone, reading the files together
+\* gives the concatenation - the same records, NR running on and FILENUM counting the files.
+\* alone[k] is the annotated output of `mlr ... file_k`, a sequence of records (sequences of <<name, text>>).
+SetField(r, k, v) == [i \in 1..Len(r) |-> IF r[i][1] = k THEN <<k, v>> ELSE r[i]]
+RECURSIVE ConcatOf(_, _, _)
+ConcatOf(alone, k, before) ==
+  IF k > Len(alone) THEN <<>>
+  ELSE [i \in 1..Len(alone[k]) |-> SetField(SetField(alone[k][i], "nr", ToString(before + i)), "fnum", ToString(k))]
+       \o ConcatOf(alone, k + 1, before + Len(alone[k]))
+
 \* CSV-lite and PPRINT input may change schema INSIDE a file: "a blank line followed by a new header line" starts a new
 \* block (file-formats.md, "Schema change"). A block file is a sequence of blocks [header, rows]; its records are the blocks'
 \* records in order, FNR counts them through the whole file, NR through all files.
